@@ -61,6 +61,17 @@ add('C13', 'TLA+ spec Refinement/GeomRefine: TLC trace validation of adaptive re
     'cube of tetrahedra; sampled beyond.',
     'DESIGN.md section 5 C13')
 
+add('C15', 'TLA+ spec Cache (memoisation automata with the code\'s hit conditions; NoStale model checked, pre-repair hit '
+    'conditions refuted) + TLC-enumerated histories over a shared object pool executed on the real code and compared, '
+    'by TLC, with fresh-interpreter references; operand checksums before/after',
+    'TLC enumerates every history up to length 2 (quick) / 3 (thorough) over ~100 operation instances in 7 groups '
+    '(elements with per-mesh / per-point tables, mappings, mesh tables and transformations, bases, quadrature across '
+    'cell types, solver factories, boundary-condition helpers); each is run on a long-lived pool; for every operation '
+    'TLC requires digest(pooled result) = digest(same operation on fresh objects in a fresh interpreter) and operand '
+    'arrays bit-for-bit unchanged. Random longer and cross-group histories extend this. Memoisation in code the '
+    'operation alphabet does not reach is not observed.',
+    'DESIGN.md section 5 C15')
+
 NOT_YET = "check not built yet (implementation in progress; see DESIGN.md section 8 for the plan)"
 NA = {'C09': "no state, transitions or discrete core: ~70 closed-form derivative formulas; TLA+/TLC cannot express "
              "real differentiation except as a numeric harness with TLC as calculator (DESIGN.md section 6)"}
